@@ -81,6 +81,20 @@ class Check(PropertyCheck):
                 jobs.append(job)
             rng.shuffle(jobs)
             family = "flex_contention"
+        elif search and rng.random() < (0.4 if getattr(self, "in_search", False) else 0.08):
+            # a flexible operation whose machines are all busy for a moment (another job's short first operations), whose
+            # short successor competes with a long operation of a third job
+            ms = list(range(4))
+            rng.shuffle(ms)
+            a1, a2, mb, mc = ms
+            job_z = [([a1], rng.randint(1, 3)), ([a2], rng.randint(1, 4))]
+            if rng.random() < 0.6:
+                job_z.append(([rng.choice([a1, a2])], rng.randint(5, 20)))
+            job_x = [([a1, a2] if rng.random() < 0.5 else [a2, a1], rng.randint(1, 4)), ([mb], rng.randint(1, 3)),
+                     ([mc], rng.randint(5, 20))]
+            jobs = [job_z, job_x, [([mb], rng.randint(5, 12))]]
+            rng.shuffle(jobs)
+            family = "flex_blocked"
         elif search:
             family, jobs = gen.gen_instance(rng, fam, max_jobs=3, max_machines=3, max_ops=3, max_dur=5)
             if gen.num_ops(jobs) > 7 and gen.is_flexible(jobs):
